@@ -78,22 +78,26 @@ Record represents (s : store) (evs : list event) : Prop := {
 (* ------------------------------------------------------------------------------------------- *)
 (* concrete syntax: how text may be written *)
 Inductive atom :=
-| ARaw (c : N)                      (* the character itself *)
-| AEnt (raw : bytes) (c : N)        (* & raw ; denoting c *)
+| ARaw (c : N)                      (* the character itself (ASCII) *)
+| AEnt (raw : bytes) (c : N)        (* & raw ; denoting the ASCII character c *)
+| AEntU (raw bs : bytes)            (* & raw ; a numeric entity >= 128, delivered UTF-8 encoded as bs *)
+| AUtf8 (bs : bytes)                (* a run of bytes >= 128 that is valid UTF-8 without U+FFFE / U+FFFF *)
 | ACr | ACrLf.                      (* CR and CR LF are delivered as LF *)
 
 Definition atom_bytes (a : atom) : bytes :=
   match a with
   | ARaw c => [c]
   | AEnt raw _ => c_amp :: raw ++ [c_semi]
+  | AEntU raw _ => c_amp :: raw ++ [c_semi]
+  | AUtf8 bs => bs
   | ACr => [c_cr]
   | ACrLf => [c_cr; c_nl]
   end.
-Definition atom_char (a : atom) : N :=
-  match a with ARaw c => c | AEnt _ c => c | ACr => c_nl | ACrLf => c_nl end.
+Definition atom_chars (a : atom) : bytes :=
+  match a with ARaw c => [c] | AEnt _ c => [c] | AEntU _ bs => bs | AUtf8 bs => bs | ACr => [c_nl] | ACrLf => [c_nl] end.
 (* the last raw byte (what the tokenizer remembers for its "]]>" and CR LF checks); 0 after an entity *)
 Definition atom_last (a : atom) : N :=
-  match a with ARaw c => c | AEnt _ _ => 0 | ACr => c_cr | ACrLf => c_nl end.
+  match a with ARaw c => c | AEnt _ _ => 0 | AEntU _ _ => 0 | AUtf8 bs => last bs 0 | ACr => c_cr | ACrLf => c_nl end.
 
 Definition atom_ok (prev : N) (a : atom) : Prop :=
   match a with
@@ -101,6 +105,8 @@ Definition atom_ok (prev : N) (a : atom) : Prop :=
               /\ ~ (prev = c_rb /\ c = c_gt)          (* "]>" is written "]&gt;" : no "]]>" can arise *)
               /\ ~ (prev = c_cr /\ c = c_nl)          (* CR then LF is the atom ACrLf *)
   | AEnt raw c => Forall (fun b => is_ent_char b = true) raw /\ decode_entity raw = EntText c /\ is_ctrl c = false /\ c < 128
+  | AEntU raw bs => Forall (fun b => is_ent_char b = true) raw /\ decode_entity raw = EntBytes bs /\ bs <> [] /\ utf8_valid bs = true
+  | AUtf8 bs => bs <> [] /\ Forall (fun c => 128 <= c) bs /\ utf8_valid bs = true
   | ACr => True
   | ACrLf => True
   end.
@@ -110,7 +116,7 @@ Fixpoint atoms_ok (prev : N) (l : list atom) : Prop :=
   | a :: r => atom_ok prev a /\ atoms_ok (atom_last a) r
   end.
 Definition text_bytes (l : list atom) : bytes := concat (map atom_bytes l).
-Definition text_chars (l : list atom) : bytes := map atom_char l.
+Definition text_chars (l : list atom) : bytes := concat (map atom_chars l).
 
 (* a document as a flat, well-nested sequence of pieces *)
 Inductive piece :=
